@@ -215,7 +215,7 @@ def one_case(ctx, k):
 
 
 def run(ctx):
-    n = 40 if ctx.tier == 'quick' else 600
+    n = 60 if ctx.tier == 'quick' else 800
     for k in range(n):
         one_case(ctx, k)
         if ctx.n_new() >= 3:
